@@ -1,5 +1,6 @@
 import PyresampleModel.Props.C15
 import PyresampleModel.Props.TieC15
+import PyresampleModel.Props.C19
 
 /-
   C15 — statements about the definitions regenerated from /repo's current `Scheduler.__init__` / `Scheduler.__iter__`:
@@ -35,5 +36,82 @@ theorem code_iter_body_spec (c : C15.Cfg) (nd st : Nat) (hc : 1 ≤ c.chunk) :
       simp [h0, hgt]
     · refine ⟨C15.chunkOf c nd, hpos, by omega, ?_⟩
       simp [h0, hgt]
+
+/-! ### the loop run to exhaustion by one worker, on the translated code itself -/
+
+/-- the slices one worker gets when it runs the (translated) loop body of `Scheduler.__iter__` to exhaustion, alone:
+`fuel` passes at most; state = (`_ndata`, `_start`) -/
+def iterGen (c : C15.Cfg) : Nat → Int → Int → List (Int × Int)
+  | 0, _, _ => []
+  | fuel + 1, nd, st =>
+    match Gen.scheduler_iter_body nd st c.nprocs c.chunk (kindStr c.kind) with
+    | (some s, nd', st') => (s.start, s.stop) :: iterGen c fuel nd' st'
+    | (none, _, _) => []
+
+theorem iterGen_chain (c : C15.Cfg) (hc : 1 ≤ c.chunk) :
+    ∀ (fuel nd st : Nat), nd ≤ fuel →
+      ∃ l : List (Nat × Nat), iterGen c (fuel + 1) nd st = l.map (fun p => ((p.1 : Int), (p.2 : Int))) ∧
+        C19.Chain st (st + nd) l := by
+  intro fuel
+  induction fuel with
+  | zero =>
+    intro nd st h
+    have : nd = 0 := by omega
+    subst this
+    have s : Gen.scheduler_iter_body ((0 : Nat) : Int) (st : Int) c.nprocs c.chunk (kindStr c.kind) =
+        (none, ((0 : Nat) : Int), (st : Int)) := (code_iter_body_spec c 0 st hc).1 rfl
+    refine ⟨[], ?_, by simp [C19.Chain]⟩
+    simp only [iterGen]
+    rw [s]; rfl
+  | succ f ih =>
+    intro nd st h
+    by_cases h0 : nd = 0
+    · subst h0
+      have s : Gen.scheduler_iter_body ((0 : Nat) : Int) (st : Int) c.nprocs c.chunk (kindStr c.kind) =
+          (none, ((0 : Nat) : Int), (st : Int)) := (code_iter_body_spec c 0 st hc).1 rfl
+      refine ⟨[], ?_, by simp [C19.Chain]⟩
+      simp only [iterGen]
+      rw [s]; rfl
+    · obtain ⟨k, hk1, hk2, e1, e2, e3⟩ := (code_iter_body_spec c nd st hc).2 h0
+      by_cases hlast : nd - k = 0
+      · -- last slice: the next pass finds nothing left
+        refine ⟨[(st, st + k)], ?_, ?_⟩
+        · rw [iterGen]
+          generalize hr : Gen.scheduler_iter_body nd st c.nprocs c.chunk (kindStr c.kind) = r at e1 e2 e3
+          obtain ⟨r1, r2, r3⟩ := r
+          simp only at e1 e2 e3
+          subst e1
+          simp only [List.map_cons, List.map_nil]
+          rw [e2, hlast]
+          -- whatever `_start` is now, nothing is left
+          have s0 : Gen.scheduler_iter_body 0 r3 c.nprocs c.chunk (kindStr c.kind) = (none, 0, r3) := by
+            simp [Gen.scheduler_iter_body]
+          simp only [Nat.cast_zero]
+          rw [iterGen, s0]
+        · have : st + nd = st + k := by omega
+          simp [C19.Chain, this]; omega
+      · have e3' := e3 hlast
+        obtain ⟨l, hl1, hl2⟩ := ih (nd - k) (st + k) (by omega)
+        refine ⟨(st, st + k) :: l, ?_, ?_⟩
+        · rw [iterGen]
+          generalize hr : Gen.scheduler_iter_body nd st c.nprocs c.chunk (kindStr c.kind) = r at e1 e2 e3'
+          obtain ⟨r1, r2, r3⟩ := r
+          simp only at e1 e2 e3'
+          subst e1
+          simp only [List.map_cons]
+          rw [e2, e3', hl1]
+        · have : st + k + (nd - k) = st + nd := by omega
+          rw [this] at hl2
+          exact ⟨rfl, by omega, hl2⟩
+
+
+/-- **a single worker running the translated `__iter__` body until nothing is left receives consecutive, non-empty slices that
+cover `[0, n)` exactly** — for every n, worker count, schedule kind and stored chunk ≥ 1; `n + 1` passes always suffice.
+(The same statement for arbitrary interleavings of several workers is `scheduler_exact_cover` of `Props/C15.lean`, about the
+small-step model that `critical_steps` connects to this loop body.) -/
+theorem code_iter_sequential_partition (c : C15.Cfg) (hc : 1 ≤ c.chunk) (n : Nat) :
+    ∃ l : List (Nat × Nat), iterGen c (n + 1) n 0 = l.map (fun p => ((p.1 : Int), (p.2 : Int))) ∧ C19.Chain 0 n l := by
+  obtain ⟨l, h1, h2⟩ := iterGen_chain c hc n n 0 (Nat.le_refl _)
+  exact ⟨l, by simpa using h1, by simpa using h2⟩
 
 end PyresampleModel.Tie
